@@ -181,7 +181,23 @@ class Adapter(object):
             elif op == "check":
                 g.check(fix=True, silent=True)
             elif op == "snap_columns_to_layers":
-                g.snap_columns_to_layers(args[0] * H)
+                if len(args) > 1:
+                    g.snap_columns_to_layers(args[0] * H, [g.column[n] for n in args[1]])
+                else:
+                    g.snap_columns_to_layers(args[0] * H)
+            elif op == "copy_layers_from":
+                m = core.repo_modules("mulgrids")
+                with core.quiet():
+                    src = m.mulgrid().rectangular([10.0], [10.0], [x * H for x in args[0]], atmos_type=g.atmosphere_type)
+                    if args[1]:
+                        src.translate(np.array([0.0, 0.0, args[1] * H]))
+                g.copy_layers_from(src)
+            elif op == "add_column_taken_name":
+                # a column under a name that is taken: add_column is documented to leave the geometry alone
+                m = core.repo_modules("mulgrids")
+                other = g.column[args[1]]
+                g.add_column(m.column(args[0], list(other.node)))
+                a["op"], a["args"] = "refused", ["add_column"] + list(args)
             elif op == "delete_orphans":
                 g.delete_orphans()
             elif op == "connect":
@@ -511,6 +527,16 @@ def op_alphabet(geo, rng, rich):
     ops.append({"op": "rotate90", "args": [rng.choice([1, 2, 3])]})
     ops.append({"op": "check", "args": []})
     ops.append({"op": "snap_columns_to_layers", "args": [2]})
+    if len(names) > 1:
+        sub = rng.sample(names, rng.randint(1, len(names) - 1))
+        ops.append({"op": "snap_columns_to_layers", "args": [2, sub]})                       # a subset, in any order
+        ops.append({"op": "add_column_taken_name", "args": [names[0], names[-1]]})          # refused: the name is taken
+    nl = len(geo.layerlist) - 1
+    if 1 <= nl <= 6:
+        # another layer structure: the same number of layers with other thicknesses, or another number
+        ops.append({"op": "copy_layers_from", "args": [[rng.choice([2, 4, 6, 8]) for _ in range(nl)], rng.choice([0, 2])]})
+        if rich:
+            ops.append({"op": "copy_layers_from", "args": [[4] * (nl + 1), 0]})
     ops.append({"op": "delete_orphans", "args": []})
     return ops
 
@@ -530,7 +556,12 @@ def totals(geo):
         gv += a * depth
         cv += c.area * depth
         worst = max(worst, abs(c.area - a) / max(a, 1e-300))
-    return {"area": ga, "cached_area": ca, "volume": gv, "cached_volume": cv, "worst_cached_area_error": worst}
+    lv = 0.0
+    for lay in geo.layerlist[1:]:
+        for c in geo.columnlist:
+            if c.surface > lay.bottom:
+                lv += geo.block_volume(lay, c)          # the library's own block volumes (what fromgeo uses)
+    return {"area": ga, "cached_area": ca, "volume": gv, "cached_volume": cv, "library_volume": lv, "worst_cached_area_error": worst}
 
 
 def record(ad, ops_seq):
